@@ -179,7 +179,8 @@ pub fn decode(bytes: &[u8], focus: F2, tier: Tier) -> MacroCase {
         F2::C05 | F2::C07 => [18, 2, 0, 0, 0, 0],
         F2::C08 => [18, 3, 0, 0, 0, 0],
         F2::C06 => [12, 8, 0, 0, 0, 0],
-        F2::C09 | F2::C10 | F2::C11 => [18, 1, 0, 0, 0, 0],
+        F2::C09 | F2::C10 => [18, 1, 0, 0, 0, 0],
+        F2::C11 => [18, 4, 0, 0, 0, 0],
         F2::C13 => [14, 0, 4, 2, 2, 0],
         F2::C12 => [14, 0, 1, 0, 9, 0],
         F2::C15 => [14, 3, 2, 1, 1, 2],
